@@ -716,9 +716,12 @@ def replay(path):
         try:
             import rtcheck
             ok = rtcheck.replay(rep)
-            log('concrete replay against the real crates: %s' % ('violation reproduced' if ok else 'NOT reproduced'))
-        except ImportError:
-            log('concrete input recorded: %s' % json.dumps(rep['concrete_input'])[:400])
+            log('concrete replay of the recorded input against the real code of the current tree: %s' % ('violation reproduced' if ok else 'NOT reproduced'))
+            if ok:
+                log('VIOLATION property=%s replay=%s obligation="%s"' % (pid, path, rep['obligation']))
+                return 1
+        except Exception as e:
+            log('concrete input recorded (replay runner failed: %s): %s' % (e, json.dumps(rep['concrete_input'])[:400]))
     rc = check_property(pid, 'quick', rep.get('seed', 0))
     ev = json.load(open(os.path.join(OUT, 'evidence', pid + '.json')))
     still = rep['obligation'] in ev['coverage'].get('failed_obligations', [])
